@@ -931,6 +931,16 @@ static std::unique_ptr<XMeas> mkMeas(long sr, long m) {
     std::unique_ptr<XMeas> x(new XMeas()); x->in_ = vdesc(sr, 0, m, false); x->out_ = vdesc(m, 0, 0, false);
     x->prows = m; x->irows = m; x->ysize = m; x->R = spd(m, 0.3); return x;
 }
+// what getInfo() says: (index of the method in use, window size)
+static std::pair<long, long> eeInfo(const EstimatesExtraction& e) {
+    std::vector<std::string> info = e.getInfo();
+    if (info.size() != 2) return std::make_pair(-1L, -1L);
+    long window = -1; std::sscanf(info[0].c_str(), "<| Current window size: %ld", &window);
+    static const char* names[12] = {"1) mean <--", "2) smean <--", "3) wmean <--", "4) emean <--", "5) mode <--", "6) smode <--", "7) wmode <--", "8) emode <--", "9) map <--", "10) smap <--", "11) wmap <--", "12) emap <--"};
+    long m = -1; int hits = 0;
+    for (long i = 0; i < 12; ++i) if (info[1].find(names[i]) != std::string::npos) { m = i; ++hits; }
+    return std::make_pair(hits == 1 ? m : -1L, window);
+}
 // x = std::move(x) through a second reference (no -Wself-move): the guards `if (this == &other) return *this;`
 template <class T> static void selfMove(T& x) { T& y = x; x = std::move(y); }
 static std::string handover(Toks& t) {
@@ -1007,6 +1017,7 @@ static std::string handover(Toks& t) {
         XExtract* r = a.get(); std::unique_ptr<XExtract> c;
         if (self) { selfMove(*b); r = b.get(); }
         else if (kind == 0) { *a = std::move(*b); b.reset(); } else { c.reset(new XExtract(std::move(*b))); b.reset(); r = c.get(); }
+        { std::pair<long, long> i = eeInfo(*r); o.n(i.first).n(i.second); }     // the method in use and the window travel with the object
         for (int i = 0; i < 4; ++i) { std::pair<bool, VectorXd> x = r->extract(Pb, w, w, l, tp); o.s(std::to_string(x.first ? 1 : 0) + ":" + std::to_string(x.second.size())); }
     } else if (cls == 9 || cls == 10 || cls == 11) {   // UKF (additive) / SUKF / KF correction, used once, then move-constructed (the only hand-over they offer)
         std::unique_ptr<GaussianCorrection> b;
@@ -1069,21 +1080,23 @@ static std::string eehand(Toks& t) {
     long ls = t.nat(), cs = t.nat(), N = t.nat();
     std::unique_ptr<XExtract> e(new XExtract(ls, cs));
     Out o; o.s("ok");
+    long lastm = eeInfo(*e).first;     // the default method
+    auto moved = [&]() { std::pair<long, long> i = eeInfo(*e); o.s("m:" + std::to_string(i.second) + (i.first == lastm ? "" : ":method-in-use-changed")); };
     while (!t.empty()) {
         std::string op = t.tok(); char k = op[0];
-        if (k == 'x') { long m = 0, f = 0; if (std::sscanf(op.c_str() + 1, "%ld_%ld", &m, &f) != 2) throw vh::BadArgs("eex"); eeUse(*e, ls, cs, N, m, f != 0, &o); }
+        if (k == 'x') { long m = 0, f = 0; if (std::sscanf(op.c_str() + 1, "%ld_%ld", &m, &f) != 2) throw vh::BadArgs("eex"); eeUse(*e, ls, cs, N, m, f != 0, &o); lastm = m; }
         else if (k == 'w') { long w = std::strtol(op.c_str() + 1, nullptr, 10); bool r = e->setMobileAverageWindowSize(static_cast<int>(w)); o.s(r ? "w1" : "w0"); }
-        else if (k == 'c') { std::unique_ptr<XExtract> c(new XExtract(std::move(*e))); e = std::move(c); o.s("m"); }
-        else if (k == 'S') { selfMove(*e); o.s("m"); }
+        else if (k == 'c') { std::unique_ptr<XExtract> c(new XExtract(std::move(*e))); e = std::move(c); moved(); }
+        else if (k == 'S') { selfMove(*e); moved(); }
         else if (k == 'M' || k == 'T') {
             long ls2 = 0, cs2 = 0, w = 0, cnt = 0, m = 0;
             if (std::sscanf(op.c_str() + 1, "%ld_%ld_%ld_%ld_%ld", &ls2, &cs2, &w, &cnt, &m) != 5) throw vh::BadArgs("eemove");
             std::unique_ptr<XExtract> other(new XExtract(ls2, cs2));
             if (w > 0) other->setMobileAverageWindowSize(static_cast<int>(w));
             for (long i = 0; i < cnt; ++i) eeUse(*other, ls2, cs2, N, m, true, nullptr);
-            if (k == 'M') { *e = std::move(*other); other.reset(); ls = ls2; cs = cs2; }
+            if (k == 'M') { if (cnt > 0) lastm = m; else lastm = eeInfo(*other).first; *e = std::move(*other); other.reset(); ls = ls2; cs = cs2; }
             else { *other = std::move(*e); e = std::move(other); }
-            o.s("m");
+            moved();
         }
         else throw vh::BadArgs("eeop");
     }
